@@ -154,8 +154,8 @@ class FormatsStream(Stream):
 
     def cases(self, tier, rng):
         for i, c in enumerate(rc.tree_cases(tier, rng)):
-            if tier == "quick" and i % 5 >= 3:
-                continue        # four command runs per tree: the quick tier takes three fifths of the shared tree cases
+            if tier == "quick" and i % 2:
+                continue        # four command runs per tree: the quick tier takes half of the shared tree cases
             if rc.dup_free(c):
                 yield c
         for c in rc.product_cases("quick", rng):
@@ -392,7 +392,7 @@ class LintFileMonoStream(LintFileStream):
             if not rc.dup_free(c):
                 continue
             n += 1
-            if tier != "thorough" and n % 2:
+            if tier != "thorough" and n % 3:
                 continue
             c = dict(c)
             big = selectors(rng, c)
